@@ -375,9 +375,12 @@ def gen_acc_cases(rng, n, tab):
     return out
 
 
-def gen_network(rng, nid, big, xml=False):
+def gen_network(rng, nid, big, xml=False, builder=False):
+    """builder: the document also goes XML -> NeuroMLXMLParser -> NetworkBuilder -> objects; NetworkBuilder needs every
+    referenced population to exist and handles chemical projections and input lists uniformly, so such documents have at
+    least one population and only those two kinds of content"""
     pops = []
-    for i in range(rng.randint(0, 4)):
+    for i in range(rng.randint(1 if builder else 0, 4)):
         r = rng.random()
         if r < 0.45:
             pops.append({"id": "pop%d" % i, "size": rng.randint(0, 30), "instances": 0})
@@ -429,35 +432,40 @@ def gen_network(rng, nid, big, xml=False):
               "conns": conns(rng, rng.choice([0, rng.randint(0, mx)]), False),
               "conn_wds": conns(rng, rng.choice([0, rng.randint(0, mx)]), False, wd=True)} for i in range(rng.randint(0, 3))]
     eprojs, cprojs = [], []
-    for i in range(rng.randint(0, 2)):
+    for i in range(0 if builder else rng.randint(0, 2)):
         a, b, c = cnt(3)
         eprojs.append({"id": "eproj%d" % i, "pre": rng.choice(names), "post": rng.choice(names),
                        "ecs": conns(rng, a, True, plain=True), "ecis": conns(rng, b, True), "eciws": conns(rng, c, True, weight=True)})
-    for i in range(rng.randint(0, 2)):
+    for i in range(0 if builder else rng.randint(0, 2)):
         a, b, c = cnt(3)
         cprojs.append({"id": "cproj%d" % i, "pre": rng.choice(names), "post": rng.choice(names),
                        "ccs": conns(rng, a, True, plain=True), "ccis": conns(rng, b, True), "cciws": conns(rng, c, True, weight=True)})
     ils = []
-    for i in range(rng.randint(0, 3)):
+    for i in range(rng.randint(1 if builder else 0, 3)):
         pop = rng.choice(names)
 
         def inp(j, w):
             s, _, idx = ref(rng, "path")
             d = {"id": j, "target": s, "cell": idx}
-            if rng.random() < 0.6:
+            r = rng.random()
+            if r < 0.4:
                 d["seg"] = rng.randint(0, 4)
                 d["fract"] = rng.choice(DYADIC[:7])
+            elif r < 0.55:
+                d["seg"] = rng.randint(1, 4)       # only the segment given
+            elif r < 0.7:
+                d["fract"] = rng.choice([0.0, 0.25, 0.75, 1.0])   # only the fraction given
             if w:
                 d["weight"] = rng.choice([1.0, 0.5, 2.0])
             return d
         ils.append({"id": "il%d" % i, "population": pop, "inputs": [inp(j, False) for j in range(rng.choice([0, rng.randint(0, mx)]))],
                     "input_ws": [inp(100 + j, True) for j in range(rng.choice([0, rng.randint(0, mx)]))]})
     eis = []
-    for _ in range(rng.choice([0, 0, rng.randint(1, 3)])):
+    for _ in range(0 if builder else rng.choice([0, 0, rng.randint(1, 3)])):
         s, pop, idx = ref(rng, rng.choice(["path", "bracket", "dd"]))
         eis.append({"target": s, "pop": pop, "cell": idx})
     scs = []
-    for _ in range(rng.choice([0, 0, rng.randint(1, 3)])):
+    for _ in range(0 if builder else rng.choice([0, 0, rng.randint(1, 3)])):
         (s1, _, _), (s2, _, _) = ref(rng), ref(rng)
         scs.append({"from": s1, "to": s2})
     return {"id": nid, "pops": pops, "projs": projs, "eprojs": eprojs, "cprojs": cprojs, "input_lists": ils,
@@ -616,8 +624,10 @@ def run(ck):
     ndocs = ck.n(60, 1500)
     docs = []
     for i in range(ndocs):
-        nets = [gen_network(rng, "net%d" % j, big=(i % 7 == 0), xml=(i % 3 == 0)) for j in range(rng.choice([1, 1, 1, 2]))]
-        docs.append({"id": "doc%d" % i, "networks": nets, "xml": i % 3 == 0})
+        bld = i % 6 == 0
+        nets = [gen_network(rng, "net%d" % j, big=(i % 7 == 0), xml=(i % 3 == 0), builder=bld)
+                for j in range(1 if bld else rng.choice([1, 1, 1, 2]))]
+        docs.append({"id": "doc%d" % i, "networks": nets, "xml": i % 3 == 0, "builder": bld})
     hs = []
     for _ in range(ck.n(200, 2000)):
         k = rng.randint(0, 6)
@@ -788,6 +798,9 @@ def run(ck):
         if r["events"] is not None:
             ck.tally("doc:xml-parsed")
             check_events(ck, doc, r["events"])
+        if r.get("rebuilt") is not None:
+            ck.tally("doc:rebuilt-by-NetworkBuilder")
+            check_rebuilt(ck, doc, r["rebuilt"])
     for cs, got in zip(hs, res["hsfi"]):
         want = any(c["pre_segment_id"] != 0 or c["post_segment_id"] != 0 or c["pre_fraction_along"] != 0.5 or c["post_fraction_along"] != 0.5
                    for c in cs)
@@ -849,6 +862,44 @@ def check_dochists(ck, dochists, results):
             if gs != ws:
                 ck.witness("C19:history:get_size", "Population.get_size() before / after instances were appended in place", input=a,
                            expected=ws, observed=gs)
+
+
+def check_rebuilt(ck, doc, rb):
+    """XML -> NeuroMLXMLParser -> NetworkBuilder -> objects: what their accessors say, against the data"""
+    want_c, want_i = [], []
+    for n in doc["networks"]:
+        for p in n["projs"]:
+            for c in p["conns"] + p["conn_wds"]:
+                want_c.append([p["id"], c["id"], c["pre_i"], c["post_i"], c.get("pre_seg", 0), float(c.get("pre_fract", 0.5)),
+                               c.get("post_seg", 0), float(c.get("post_fract", 0.5)), float(c.get("delay_ms", 0.0)), float(c.get("weight", 1.0))])
+        for l in n["input_lists"]:
+            for i in l["inputs"] + l["input_ws"]:
+                want_i.append([l["id"], i["id"], i["cell"], i.get("seg", 0), float(i.get("fract", 0.5)), float(i.get("weight", 1.0))])
+
+    def same(a, b):
+        return len(a) == len(b) and all(x == y or (isinstance(x, float) and isinstance(y, float) and abs(x - y) <= 1e-9 * max(1.0, abs(y)))
+                                        for x, y in zip(a, b))
+    for kind, got, want in (("connection", sorted(rb["connections"]), sorted(want_c)), ("input", sorted(rb["inputs"]), sorted(want_i))):
+        if len(got) != len(want):
+            ck.witness("C19:rebuilt:%s-count" % kind, "after XML -> NeuroMLXMLParser -> NetworkBuilder the document has %d %ss, the data %d"
+                       % (len(got), kind, len(want)), input=doc, expected=len(want), observed=len(got))
+            continue
+        for g, w in zip(got, want):
+            if not same(g, w):
+                fld = ("cell", "cell", "cell", "cell", "segment", "fraction", "segment", "fraction", "delay", "weight")[
+                    next(i for i, (x, y) in enumerate(zip(g, w)) if not same([x], [y]))] if kind == "connection" else \
+                    ("list", "id", "cell", "segment", "fraction", "weight")[next(i for i, (x, y) in enumerate(zip(g, w)) if not same([x], [y]))]
+                ck.witness("C19:rebuilt:%s:%s" % (kind, fld), "accessors of the %s rebuilt by NetworkBuilder from the parser's events "
+                           "(list/projection, id, cell, segment, fraction, ...) differ from the stored data" % kind,
+                           input={"stored": w, "document": doc["id"]}, expected=w, observed=g)
+                break
+    ps = parse_summary(rb["summary"])
+    for n, p in zip(doc["networks"], ps):
+        t = net_totals(n)
+        for k in ("connections", "inputs", "input lists", "projections", "populations"):
+            if p.get(k) != t[k]:
+                ck.witness("C19:rebuilt:summary:%s" % k, "summary() of the rebuilt document reports %s %s, stored %d" % (p.get(k), k, t[k]),
+                           input=n, expected=t[k], observed=p.get(k))
 
 
 def check_events(ck, doc, events):
